@@ -275,14 +275,15 @@ func (c *Ctx) contractCall(fr *Frame, st *State, site ssa.Instruction, fn *ssa.F
 		}
 	}
 	// frame
+	var pendingKept []pendKept
 	if con.AssignsAll {
 		kept := c.keptLeaves(con)
 		if c.dry > 0 && c.wr != nil {
-			c.wr.noteKeeps(kept)
+			c.wr.noteKeeps(keptPairs(kept))
 		}
 		var keepTerms []string
 		for _, k := range kept {
-			keepTerms = append(keepTerms, c.H(st, k[0], k[1]))
+			keepTerms = append(keepTerms, c.H(st, k.leaf, k.sort))
 		}
 		nextPre := c.next(st)
 		if con.NoGhost {
@@ -290,16 +291,31 @@ func (c *Ctx) contractCall(fr *Frame, st *State, site ssa.Instruction, fn *ssa.F
 		} else {
 			c.havocEverything(st)
 		}
+		if con.NoGhost {
+			// an interior pointer into a protected component (&s.attrs, &pc.buf ...) handed to the callee
+			// is a location the callee may write even though the component as a whole is protected
+			for _, a := range args {
+				if a != nil && a.P != nil && a.P.Reg == nil && a.P.Dim > 0 && protectedLeaf(a.P.Comp) {
+					if _, isPtr := a.T.Underlying().(*types.Pointer); isPtr {
+						c.havocReachable(st, a)
+					}
+				}
+			}
+		}
 		for i, k := range kept {
-			if !strings.HasPrefix(k[1], "(Array") {
-				st.heap[k[0]] = keepTerms[i]
+			if !strings.HasPrefix(k.sort, "(Array") {
+				st.heap[k.leaf] = keepTerms[i]
 				continue
 			}
 			c.nsym++
-			name := sym(fmt.Sprintf("%s@%d_kept", k[0], c.nsym))
-			c.declare(name, k[1])
-			c.assumeAlways(fmt.Sprintf("(forall ((r Int)) (! (=> (< r %s) (= (select %s r) (select %s r))) :pattern ((select %s r))))", nextPre, name, keepTerms[i], name))
-			st.heap[k[0]] = name
+			name := sym(fmt.Sprintf("%s@%d_kept", k.leaf, c.nsym))
+			c.declare(name, k.sort)
+			st.heap[k.leaf] = name
+			if len(k.except) == 0 {
+				c.assumeAlways(fmt.Sprintf("(forall ((r Int)) (! (=> (< r %s) (= (select %s r) (select %s r))) :pattern ((select %s r))))", nextPre, name, keepTerms[i], name))
+			} else {
+				pendingKept = append(pendingKept, pendKept{k, name, keepTerms[i], nextPre})
+			}
 		}
 		c.restoreCaptured(st, pre)
 	} else {
@@ -313,6 +329,19 @@ func (c *Ctx) contractCall(fr *Frame, st *State, site ssa.Instruction, fn *ssa.F
 	res := c.freshResult(st, rt, "r_"+fn.Name())
 	post := c.calleeEnv(fr, fn, fn.Signature, paramNames(fn), st, pre, args, fd)
 	c.bindResults(post, fn.Signature, res)
+	for _, pk := range pendingKept {
+		conds := []string{app("<", "r", pk.nextPre)}
+		for _, e := range pk.k.except {
+			ex, err := parseExprCached(e)
+			if err != nil {
+				c.unsupported("keeps except %q", e)
+				continue
+			}
+			v := post.evalTop(&Clause{Src: e, Expr: ex})
+			conds = append(conds, not(eq("r", v.Term)))
+		}
+		c.assumeAlways(fmt.Sprintf("(forall ((r Int)) (! (=> %s (= (select %s r) (select %s r))) :pattern ((select %s r))))", and(conds...), pk.name, pk.old, pk.name))
+	}
 	for _, en := range con.Ensures {
 		g := post.evalTop(en)
 		c.assume(g.Term)
@@ -728,6 +757,11 @@ func (c *Ctx) invokeExternal(fr *Frame, st *State, site ssa.Instruction, recv *V
 		return c.extContractCall(fr, st, site, con, m, all, rt)
 	}
 	return c.defaultExternal(fr, st, "invoke "+key, all, rt), nil
+}
+
+type pendKept struct {
+	k                  keptLeaf
+	name, old, nextPre string
 }
 
 type implCand struct {
@@ -1286,11 +1320,55 @@ func (e *Env) globalByName(name string) *ssa.Global {
 	return nil
 }
 
-// keptLeaves resolves "keeps T.f" items to (leaf, sort) pairs.
-func (c *Ctx) keptLeaves(con *Contract) [][2]string {
+// keptLeaf: one heap component named by a "keeps" item, with the objects it does not cover.
+type keptLeaf struct {
+	leaf, sort string
+	except     []string // contract expressions (references): these objects may change
+}
+
+func keptPairs(ks []keptLeaf) [][2]string {
 	var out [][2]string
+	for _, k := range ks {
+		if len(k.except) == 0 {
+			out = append(out, [2]string{k.leaf, k.sort})
+		}
+	}
+	return out
+}
+
+// keptLeaves resolves "keeps" items to heap components:
+//
+//	T.f | T.*            struct fields of the root package's type T
+//	ghost.v              a ghost variable
+//	map[K]V              the contents of every map of that type
+//	<item> except e ...  ... of every object other than e (a reference expression; may mention result and old())
+func (c *Ctx) keptLeaves(con *Contract) []keptLeaf {
+	var out []keptLeaf
 	rp := c.prog.Pkgs[rootPkg]
-	for _, it := range con.Keeps {
+	for _, item := range con.Keeps {
+		segs := strings.Split(item, " except ")
+		it := strings.TrimSpace(segs[0])
+		var exc []string
+		for _, e := range segs[1:] {
+			exc = append(exc, strings.TrimSpace(e))
+		}
+		if strings.HasPrefix(it, "map[") {
+			ex, err := parseExprCached(it)
+			if err != nil {
+				c.unsupported("keeps item %q", it)
+				continue
+			}
+			env := &Env{c: c, fr: c.topFrame, fn: c.fn, vars: map[string]*Val{}}
+			mt, ok := env.typeExpr(ex).Underlying().(*types.Map)
+			if !ok {
+				c.unsupported("keeps: not a map type %q", it)
+				continue
+			}
+			for _, lf := range c.mapLeaves(mt) {
+				out = append(out, keptLeaf{lf[0], lf[1], exc})
+			}
+			continue
+		}
 		parts := strings.SplitN(it, ".", 2)
 		if len(parts) != 2 || rp == nil {
 			c.unsupported("keeps item %q", it)
@@ -1302,7 +1380,7 @@ func (c *Ctx) keptLeaves(con *Contract) [][2]string {
 			found := false
 			for i, n := range names {
 				if n == "G:"+rootPkg+".ghost."+parts[1] {
-					out = append(out, [2]string{n, sorts[i]})
+					out = append(out, keptLeaf{n, sorts[i], nil})
 					found = true
 				}
 			}
@@ -1326,7 +1404,7 @@ func (c *Ctx) keptLeaves(con *Contract) [][2]string {
 				leaves(stt.Field(i).Type(), []int{i}, func(path []int, lt types.Type) {
 					if ls := sortOf(lt); ls != "" {
 						n, _ := leafName("F:"+typeName(tn.Type()), tn.Type(), path)
-						out = append(out, [2]string{n, c.compSort(ls, 1)})
+						out = append(out, keptLeaf{n, c.compSort(ls, 1), exc})
 					}
 				})
 				found = true
